@@ -8,7 +8,7 @@ use std::time::Instant;
 
 use anyvec_pbt::cases::Shape;
 use anyvec_pbt::choices::Ch;
-use anyvec_pbt::configs::{all_configs, ConfigEntry};
+use anyvec_pbt::configs::ConfigEntry;
 use anyvec_pbt::driver::*;
 use anyvec_pbt::props::{plan_for, Tier};
 
@@ -233,3 +233,14 @@ fn flavours_of(entry: &ConfigEntry) -> Vec<Option<usize>> {
 
 #[allow(dead_code)]
 fn unused(_: Shape) {}
+
+fn all_configs() -> Vec<ConfigEntry> {
+    let mut v = Vec::new();
+    v.extend(cfg1::configs());
+    v.extend(cfg2::configs());
+    v.extend(cfg3::configs());
+    v.extend(cfg4::configs());
+    v.extend(cfg5::configs());
+    v.extend(cfg6::configs());
+    v
+}
